@@ -642,6 +642,7 @@ func (v *Verifier) lvalue(fr *Frame, st *State, e ast.Expr) Loc {
 		case *types.Slice:
 			sv := v.eval(fr, st, x.X).(SliceVal)
 			v.boundsCheck(fr, st, x.Pos(), idx, sv.Len)
+			v.releasedCheck(fr, st, x.Pos(), sv.Ref)
 			return HeapElemLoc{Sh: sv.Sh.Elem, Ref: sv.Ref, Idx: v.iAdd(sv.Off, idx)}
 		}
 		panic(unsupportedf(x.Pos(), "lvalue: index of %s", xt))
@@ -659,6 +660,19 @@ func (v *Verifier) typeOfDyn(fr *Frame, st *State, e ast.Expr) types.Type {
 		return t
 	}
 	panic(unsupportedf(e.Pos(), "cannot determine type of expression"))
+}
+
+// releasedCheck: an array that this path has handed to a sync.Pool (directly or through a callee's
+// contract) must not be used any more. Only generated once the path has a released-flag heap.
+func (v *Verifier) releasedCheck(fr *Frame, st *State, pos token.Pos, ref *Term) {
+	if fr.inSpec || ref == nil {
+		return
+	}
+	h, ok := st.heaps[gReleased]
+	if !ok || h == v.eng.C.decls["H0$"+gReleased] {
+		return
+	}
+	v.oblige(fr, st, "released", pos, v.eng.C.Not(v.eng.C.Select(h, ref)), "use of memory that has been returned to a sync.Pool")
 }
 
 func (v *Verifier) boundsCheck(fr *Frame, st *State, pos token.Pos, idx, n *Term) {
@@ -726,6 +740,7 @@ func (v *Verifier) evalSliceExpr(fr *Frame, st *State, x *ast.SliceExpr) Val {
 	switch u := xt.Underlying().(type) {
 	case *types.Slice:
 		sv := v.eval(fr, st, x.X).(SliceVal)
+		v.releasedCheck(fr, st, x.Pos(), sv.Ref)
 		ref, off, ln, cp, elem, resT = sv.Ref, sv.Off, sv.Len, sv.Cap, sv.Sh.Elem, xt
 	case *types.Array:
 		loc := v.lvalue(fr, st, x.X)
